@@ -13,6 +13,13 @@ Reference model (no library import): a Python loop returning the first in-band i
 maximal non-missing value; 1/f; atan2 / spread formulas (math) of the per-frequency moments at
 that index; dispersion residual with numpy.  Bands that are empty or hold only missing values
 have no defined peak and are not compared.
+
+History family (units 'history:*'): ONE spectrum object per history, every sequence of length <= 3
+over {read the five peak functions on two bands, read peak_wavenumber} U {in-place modifications:
+multiply(full array, inplace), multiply(array, dimensions=[frequency] / [direction], inplace) with a
+factor that moves the maximum, fillna(value), item assignment of variance_density, direct dataset
+assignment}; after every read (and once more after the last step) the values must describe the
+variance density the object holds NOW.
 """
 import itertools
 import math
@@ -34,7 +41,11 @@ RULE = (
     "(relative residual undefined); the all-NaN word is kept out of the main batch (no defined peak) and is evaluated in a "
     "second batch together with all other words on the bands that cover the whole grid or all but one node, where the "
     "other members must still get their own peak. A case (grid, word, in-band node set) is non-trivial when the peak is defined and at "
-    "least two in-band values are present; distinct cases are counted once (1d, time layout)."
+    "least two in-band values are present; distinct cases are counted once (1d, time layout). "
+    "History family: all operation sequences of length <= 3 (quick: length 3 only for 1d in the (time) layout, else <= 2) over "
+    "2 reads and 5 (1d) / 6 (2d) in-place mutators on a fresh 6-member object (grid g5u, mixed depths; layout () uses two "
+    "members), bands {default, [f1,f4)}; all factors are dyadic so that ties in e(f) stay exact; a history is non-trivial when "
+    "a read precedes a modification."
 )
 ASSUMPTIONS = [
     "lattice of variance densities {-1,0,1,2,NaN} per bin, not the continuum",
@@ -49,6 +60,8 @@ REQUIRED_CATEGORIES = [
     "nan_in_band", "undefined_not_compared", "batch_distinct_peaks", "finite_depth", "nan_depth", "inf_depth",
     "layout:scalar", "layout:time", "layout:time_lat", "layout:flat", "kind:1d", "kind:2d", "direction_independent_checked",
     "class:inband_all_nonpositive_band_not_at_0", "batch_with_all_nan_member",
+    "history_executed", "history_read_then_mutate", "history_mutation_steps", "history_fillna_filled_bins",
+    "history_peak_moved",
 ]
 
 NAN = float("nan")
@@ -583,6 +596,7 @@ def units(tier):
             for ch in range(nch):
                 us.append({"name": f"{g}:{kind}:scalar:{ch}of{nch}", "grid": g, "kind": kind, "layout": "scalar",
                            "chunk": ch, "nchunks": nch, "cost": nw * nmask * w2 / nch / 4})
+    us += history_units(tier)
     return us
 
 
@@ -714,5 +728,269 @@ def run_scalar(unit):
     return c.result()
 
 
+# ------------------------------------------------------------------------------------------
+# history family: reads and in-place modifications on ONE object
+# ------------------------------------------------------------------------------------------
+HISTORY_GRID = "g5u"
+HISTORY_READS = ("peak", "wavenumber")
+HISTORY_MUTATORS = ("mul_full", "mul_frequency", "mul_direction", "fillna", "setitem", "dataset_assign")
+HISTORY_MAXLEN = 3
+HISTORY_WORDS = [
+    (1.0, 2.0, 0.0, 2.0, 0.0), (0.0, None, 2.0, 1.0, 1.0), (2.0, 2.0, None, 0.0, 1.0),
+    (0.0, 0.0, 0.0, 0.0, 0.0), (None, 1.0, 1.0, 2.0, None), (-1.0, 0.0, -1.0, -1.0, 0.0),
+]
+HISTORY_DEPTHS = (NAN, INF, 1000.0, 10.0, 0.5, 10.0)
+HISTORY_SCALAR_MEMBERS = (1, 4)
+# dyadic factors: every e(f) stays an exactly representable number, ties stay ties
+HISTORY_FREQ_FACTOR = (0.25, 0.5, 1.0, 2.0, 8.0)
+HISTORY_DIR_FACTOR = (1.0, 2.0, 0.5, 4.0)
+
+
+def history_ops(kind):
+    return HISTORY_READS + tuple(m for m in HISTORY_MUTATORS if not (m == "mul_direction" and kind == "1d"))
+
+
+def history_maxlen(tier, kind, layout):
+    """named restriction 'history_length3_quick'."""
+    if tier == "thorough" or (kind == "1d" and layout == "time"):
+        return HISTORY_MAXLEN
+    return 2
+
+
+def histories(kind, maxlen, first=None):
+    ops = history_ops(kind)
+    out = []
+    for length in range(1, maxlen + 1):
+        for h in itertools.product(ops, repeat=length):
+            if first is None or h[0] == first:
+                out.append(list(h))
+    return out
+
+
+def history_units(tier):
+    us = []
+    for kind in ("1d", "2d:d4"):
+        for layout in ("scalar",) + LAYOUTS:
+            ml = history_maxlen(tier, kind, layout)
+            w2 = 4.0 if kind != "1d" else 1.0
+            if ml == HISTORY_MAXLEN:  # sharded by the first operation
+                for op in history_ops(kind):
+                    us.append({"name": f"history:{kind}:{layout}:first={op}", "family": "history", "kind": kind,
+                               "layout": layout, "first": op, "maxlen": ml, "cost": 300 * w2, "grid": HISTORY_GRID})
+            else:
+                us.append({"name": f"history:{kind}:{layout}", "family": "history", "kind": kind, "layout": layout,
+                           "first": None, "maxlen": ml, "cost": 300 * w2, "grid": HISTORY_GRID})
+    return us
+
+
+def ref_row_moments(row, dirs, widths):
+    """(e, a1, b1) of one frequency from the directional densities the object holds; NaN terms skipped;
+    e is None when every term is missing."""
+    e = ca = sa = 0.0
+    seen = False
+    for v, th, wk in zip(row, dirs, widths):
+        if v != v:
+            continue
+        seen = True
+        e += v * wk
+        ca += v * math.cos(th * math.pi / 180.0) * wk
+        sa += v * math.sin(th * math.pi / 180.0) * wk
+    if not seen:
+        return None, NAN, NAN
+    if e == 0.0:
+        return e, NAN, NAN
+    return e, ca / e, sa / e
+
+
+def run_history(unit):
+    c = Collector()
+    tier, kind, layout = unit["tier"], unit["kind"], unit["layout"]
+    f = grids(tier)[HISTORY_GRID]
+    agg = Agg(c, {"grid": HISTORY_GRID, "kind": kind, "layout": layout, "family": "history"})
+    member_sets = [[m] for m in HISTORY_SCALAR_MEMBERS] if layout == "scalar" else [list(range(len(HISTORY_WORDS)))]
+    hs = histories(kind, unit["maxlen"], unit.get("first"))
+    bands = [(0, INF), (f[1], f[4])]
+    for ms in member_sets:
+        mem = Members(f, HISTORY_WORDS, kind, ms)
+        dep = np.array([HISTORY_DEPTHS[m] for m in ms])
+        for hist in hs:
+            try:
+                one_history(c, agg, mem, layout, dep, hist, bands)
+            except Exception:
+                agg.add("history raises", "history", len(ms), f"history {hist} raised", history=list(hist),
+                        traceback=traceback.format_exc()[-1500:])
+            c.cat("history_executed")
+            c.cat("history_mutation_steps", sum(1 for op in hist if op in HISTORY_MUTATORS))
+            seen_read = False
+            for op in hist:
+                if op in HISTORY_READS:
+                    seen_read = True
+                elif seen_read:
+                    c.cat("history_read_then_mutate")
+                    if layout == "time":
+                        c.nontriv((kind, "history") + tuple(hist))
+                    break
+    agg.flush()
+    c.case({"family": "history", "kind": kind, "layout": layout, "ops": list(history_ops(kind)), "maxlen": unit["maxlen"],
+            "first": unit.get("first"), "histories": len(hs)})
+    c.sample({"family": "history", "kind": kind, "layout": layout, "operations": list(history_ops(kind)),
+              "max_length": unit["maxlen"], "histories": len(hs), "example": hs[len(hs) // 2],
+              "words": [[str(x) for x in w] for w in HISTORY_WORDS]})
+    return c.result()
+
+
+def one_history(c, agg, mem, layout, dep, hist, bands):
+    f = mem.f
+    fa = np.array(f)
+    nf, nm, kind = mem.nf, mem.n, mem.kind
+    s = mem.build(layout, depth=dep.copy())
+    if kind != "1d":
+        ds = DIRSETS[kind.split(":")[1]]
+        dirs, widths = ds["dirs"], ref_widths(ds["dirs"])
+    ar = np.arange(nm)
+
+    def current():
+        """Both admissible readings of e(f) and the reference direction / spread per frequency, from what the object
+        holds NOW."""
+        cur = np.array(s.variance_density.values, dtype=float).reshape((nm,) + mem.E.shape[1:])
+        refdir = np.full((nm, nf), NAN)
+        refspr = np.full((nm, nf), NAN)
+        valsA, valsB = [], []
+        if kind == "1d":
+            a1 = np.array(s.dataset["a1"].values, dtype=float).reshape(nm, nf)
+            b1 = np.array(s.dataset["b1"].values, dtype=float).reshape(nm, nf)
+        for m in range(nm):
+            va, vb = [], []
+            for j in range(nf):
+                if kind == "1d":
+                    v = cur[m, j]
+                    e = None if v != v else float(v)
+                    a, b = a1[m, j], b1[m, j]
+                    va.append(e)
+                else:
+                    e, a, b = ref_row_moments(cur[m, j], dirs, widths)
+                    va.append(0.0 if e is None else e)
+                vb.append(e)
+                if a == a and b == b:
+                    r = math.sqrt(a * a + b * b)
+                    if 1e-9 < r <= 0.95:
+                        refdir[m, j] = ref_direction(a, b)
+                        refspr[m, j] = ref_spread(a, b)
+            valsA.append(va)
+            valsB.append(vb)
+        return valsA, valsB, refdir, refspr
+
+    def peaks(valsA, valsB, idx):
+        PA = np.array([ref_peak(v, idx) for v in valsA])
+        PB = np.array([ref_peak(v, idx) for v in valsB])
+        return PA, PB
+
+    def fail(step, name, bad, lib, exp, band, valsB):
+        m = int(np.argmax(bad))
+        agg.add("history " + name, "history", int(bad.sum()),
+                f"after {hist[:step + 1]} (step {step}): {name} band={list(band)} is {lib[m]!r} but the variance density the "
+                f"object holds now gives {exp[m]!r} (member {m}, e={valsB[m]})",
+                history=list(hist), step=step, band=list(band), lib=float(lib[m]), reference=float(exp[m]))
+
+    def read_peak(step):
+        valsA, valsB, refdir, refspr = current()
+        for band in bands:
+            idx = inband(f, *band)
+            PA, PB = peaks(valsA, valsB, idx)
+            defined = PB >= 0
+            cands = [PB] if np.array_equal(PA, PB) else [PA, PB]
+            PBs = np.where(PB < 0, 0, PB)
+            for name, fn in (
+                ("peak_index", lambda: s.peak_index(*band)), ("peak_frequency", lambda: s.peak_frequency(*band)),
+                ("peak_period", lambda: s.peak_period(*band)), ("peak_direction", lambda: s.peak_direction(*band)),
+                ("peak_directional_spread", lambda: s.peak_directional_spread(*band)),
+            ):
+                v = call(agg, "history " + name, "history", fn, nm, layout, band)
+                if v is None:
+                    continue
+                ok = np.zeros(nm, bool)
+                for R in cands:
+                    Rs = np.where(R < 0, 0, R)
+                    if name == "peak_index":
+                        good = v == R
+                        exp = PB.astype(float)
+                    elif name == "peak_frequency":
+                        good = v == fa[Rs]
+                        exp = fa[PBs]
+                    elif name == "peak_period":
+                        good = close(v, 1.0 / fa[Rs], rtol=1e-12)
+                        exp = 1.0 / fa[PBs]
+                    else:
+                        ref = refdir if name == "peak_direction" else refspr
+                        ind = ref[ar, Rs]
+                        has = ~np.isnan(ind)
+                        with np.errstate(invalid="ignore"):
+                            d = angle_diff(v, np.where(has, ind, 0.0)) if name == "peak_direction" \
+                                else np.abs(v - np.where(has, ind, 0.0))
+                            good = ~has | (d <= 1e-9)
+                        exp = ref[ar, PBs]
+                        c.cat("direction_independent_checked", int((has & defined).sum()))
+                    ok |= good
+                c.evaluations += int(defined.sum())
+                bad = defined & ~ok
+                if bad.any():
+                    fail(step, name, bad, v, exp, band, valsB)
+
+    def read_wavenumber(step):
+        valsA, valsB, _, _ = current()
+        idx = inband(f, 0, INF)
+        PA, PB = peaks(valsA, valsB, idx)
+        if (PB < 0).any():
+            return  # a member without a defined peak: nothing is demanded of the batch call's value for it, and
+            #         its index may be f-independent; skip the read (counted as not compared)
+        k = call(agg, "history peak_wavenumber", "history", lambda: s.peak_wavenumber, nm, layout, (0, INF))
+        if k is None:
+            return
+        dd = np.where(np.isnan(dep), INF, dep)
+        bad = ~(np.isfinite(k) & (k > 0))
+        ks = np.where(bad, 1.0, k)
+        res = np.minimum(ref_dispersion_residual(ks, 2 * np.pi * fa[PA], dd), ref_dispersion_residual(ks, 2 * np.pi * fa[PB], dd))
+        bad |= ~(res <= 1e-3)
+        c.evaluations += nm
+        if bad.any():
+            fail(step, "peak_wavenumber", bad, k, res, (0, INF), valsB)
+
+    def default_peaks():
+        valsA, valsB, _, _ = current()
+        return peaks(valsA, valsB, inband(f, 0, INF))[1]
+
+    for step, op in enumerate(hist):
+        if op == "peak":
+            read_peak(step)
+            continue
+        if op == "wavenumber":
+            read_wavenumber(step)
+            continue
+        before = default_peaks()
+        if op == "mul_full":
+            s.multiply(np.full(s.shape(), 4.0), inplace=True)
+        elif op == "mul_frequency":
+            s.multiply(np.array(HISTORY_FREQ_FACTOR), dimensions=["frequency"], inplace=True)
+        elif op == "mul_direction":
+            s.multiply(np.array(HISTORY_DIR_FACTOR), dimensions=["direction"], inplace=True)
+        elif op == "fillna":
+            c.cat("history_fillna_filled_bins", int(np.sum(np.isnan(s.variance_density.values))))
+            s.fillna(5.0)
+        elif op == "setitem":
+            da = s.dataset["variance_density"]
+            s["variance_density"] = da.copy(data=2.0 * np.flip(da.values, axis=da.dims.index("frequency")) + 0.25)
+        elif op == "dataset_assign":
+            s.dataset["variance_density"] = 0.5 * s.dataset["variance_density"].roll(frequency=1, roll_coords=False)
+        else:
+            raise AssertionError(op)
+        if not np.array_equal(before, default_peaks()):
+            c.cat("history_peak_moved")
+    last = len(hist) - 1
+    read_peak(last)
+    read_wavenumber(last)
+
+
 def run_unit(unit):
+    if unit.get("family") == "history":
+        return run_history(unit)
     return run_scalar(unit) if unit["layout"] == "scalar" else run_batched(unit)
